@@ -283,4 +283,17 @@ CHECKS = {
         assumptions=["the single-symbol unprojected query is checked by C08/C09"],
         technique="differential property-based testing (multi/projected query vs single query)",
     ),
+    "C19": dict(
+        test="TestC19", level="exploration", shards=16,
+        tiers=dict(quick=dict(checks=30, timeout=600), thorough=dict(checks=2000, timeout=3000)),
+        rule="rapid stored histories (fixed and variable, i4/i8/f4/f8 columns, small value range so that literals tie "
+             "with stored values, times incl. sub-second offsets and a year edge) x 3-10 statements SELECT * FROM `b` "
+             "WHERE c1 AND .. ck (k<=3), ci over Epoch (datetime string in the five accepted layouts, epoch seconds, epoch "
+             "nanoseconds) and value columns x {<,<=,>,>=,=,BETWEEN}, literals on/between/outside stored values, executed "
+             "by BuildQueryTree -> NewExecutableStatement -> Materialize; oracle: naive filter of the server's own "
+             "SELECT * (Epoch at full precision, columns in their own precision, BETWEEN strict), same order; "
+             "non-trivial = result neither empty nor everything",
+        assumptions=["non-negative literals (the grammar's literal forms)", "time zone UTC"],
+        technique="differential property-based testing (SQL WHERE vs naive filter of SELECT *)",
+    ),
 }
